@@ -147,6 +147,7 @@ DTYPES = {
     "b1": None,
     "f8": None,
     "f4": None,
+    "fdict": None,  # numba typed dict int64 -> float64 (heap object indexed by key; comp "has" = key present)
 }
 
 NP_DTYPE_NAMES = {
@@ -174,6 +175,8 @@ def is_bool_dtype(dt):
 
 
 def elem_sorts(dtype):
+    if dtype == "fdict":
+        return {"v": R, "ninf": B, "nan": B, "has": B}
     if is_float_dtype(dtype):
         return {"v": R, "ninf": B, "nan": B}
     if is_bool_dtype(dtype):
